@@ -1,11 +1,13 @@
 package geom
 
+import "math"
+
 // ExactEqualsOption allows the behaviour of the ExactEquals method in the
 // Geometry interface to be modified.
 type ExactEqualsOption func(exactEqualsComparator) exactEqualsComparator
 
 type exactEqualsComparator struct {
-	toleranceSq float64
+	tolerance   float64
 	ignoreOrder bool
 }
 
@@ -22,7 +24,7 @@ func newExactEqualsComparator(opts []ExactEqualsOption) exactEqualsComparator {
 // within the given euclidean distance of each other.
 func ToleranceXY(within float64) ExactEqualsOption {
 	return func(c exactEqualsComparator) exactEqualsComparator {
-		c.toleranceSq = within * within
+		c.tolerance = math.Abs(within)
 		return c
 	}
 }
@@ -31,14 +33,14 @@ func (c exactEqualsComparator) eq(a, b Coordinates) bool {
 	if a.Type != b.Type {
 		return false
 	}
-	if c.toleranceSq == 0 {
+	if c.tolerance == 0 {
 		// Without a tolerance the XY values must be identical. Going via the
 		// squared distance would be wrong, because it underflows to zero for
 		// distinct points that are very close to each other.
 		if a.XY != b.XY {
 			return false
 		}
-	} else if asb := a.XY.Sub(b.XY); asb.lengthSq() > c.toleranceSq {
+	} else if c.exceedsTolerance(a.XY, b.XY) {
 		return false
 	}
 	if a.Type.Is3D() && a.Z != b.Z {
@@ -48,6 +50,27 @@ func (c exactEqualsComparator) eq(a, b Coordinates) bool {
 		return false
 	}
 	return true
+}
+
+// exceedsTolerance reports whether the distance between a and b is greater
+// than the tolerance.
+func (c exactEqualsComparator) exceedsTolerance(a, b XY) bool {
+	dx := math.Abs(a.X - b.X)
+	dy := math.Abs(a.Y - b.Y)
+	tol := c.tolerance
+
+	// The squared distance is compared to the squared tolerance. Squaring
+	// overflows for values above about 1e154 and underflows for values below
+	// about 1e-162, so first scale all three values by the same power of two
+	// (which is exact and doesn't alter the result of the comparison) such
+	// that the largest of them is close to 1.
+	if largest := math.Max(tol, math.Max(dx, dy)); !math.IsNaN(largest) {
+		exp := math.Ilogb(math.Min(largest, math.MaxFloat64))
+		dx = math.Ldexp(dx, -exp)
+		dy = math.Ldexp(dy, -exp)
+		tol = math.Ldexp(tol, -exp)
+	}
+	return dx*dx+dy*dy > tol*tol
 }
 
 // IgnoreOrder is an ExactEqualsOption that modifies the behaviour of the
